@@ -24,7 +24,7 @@ from cryptoparser.common.base import (
     VectorString,
 )
 from cryptoparser.common.classes import LanguageTag
-from cryptoparser.common.exception import InvalidType, TooMuchData
+from cryptoparser.common.exception import InvalidType, NotEnoughData, TooMuchData
 from cryptoparser.common.parse import ParsableBase, ParserBinary, ComposerBinary, ParserText, ComposerText
 from cryptoparser.common.utils import bytes_to_hex_string
 
@@ -154,7 +154,23 @@ class SshProtocolMessage(ParsableBase):
         return composer.composed
 
 
-class SshAlgorithmVector(VectorString):
+class SshNameListBase(VectorString):
+    @classmethod
+    def _parse(cls, parsable):
+        header_size = cls.get_param().item_num_size
+        if len(parsable) >= header_size:
+            parser = ParserBinary(parsable[:header_size])
+            parser.parse_numeric('item_byte_num', header_size)
+            if len(parsable) < header_size + parser['item_byte_num']:
+                raise NotEnoughData(header_size + parser['item_byte_num'] - len(parsable))
+            body = parsable[header_size:header_size + parser['item_byte_num']]
+            if body[-1:] == b',':
+                raise InvalidValue(body, cls, 'items')
+
+        return super(SshNameListBase, cls)._parse(parsable)
+
+
+class SshAlgorithmVector(SshNameListBase):
     @classmethod
     def get_param(cls):
         return VectorParamString(
@@ -215,7 +231,7 @@ class VectorParamSshLanguage(VectorParamString):
         return len(item.compose())
 
 
-class SshLanguageVector(VectorString):
+class SshLanguageVector(SshNameListBase):
     @classmethod
     def get_param(cls):
         return VectorParamSshLanguage()
